@@ -74,7 +74,7 @@ func compareParsed(got *ast.DataMessage, want smlMsg, variant int) error {
 			}
 		}
 		hc := Hdr{Stream: h.Stream, Function: h.Function, Wait: boolToWait(h.Wait == 1), Session: 77, System: []byte{9, 8, 7, 6}}
-		done := completeMessage(got, hc, fill, 0)
+		done := completeMessage(got, hc, fill, 6+len(fill)%6)
 		ref, _, rerr := model.RefEncodeMsg(modelMsg(hc, filled), nil)
 		if rerr != nil {
 			return fmt.Errorf("harness: %v", rerr)
